@@ -1,7 +1,10 @@
 package props
 
 import (
+	"fmt"
 	"go/types"
+	"os"
+	"sort"
 	"strings"
 
 	"golang.org/x/tools/go/ssa"
@@ -25,6 +28,7 @@ type Model struct {
 	fn         map[string]*ssa.Function // canonical "pkg.name" -> function
 	fnCanon    map[*ssa.Function]string
 	methCanon  map[string]string // actual unexported interface method name -> canonical
+	globCanon  map[types.Object]string
 	notes      []string
 }
 
@@ -33,10 +37,38 @@ var M *Model
 // Prepare builds the model for the loaded program and installs the
 // canonicalisation hooks. Must be called before a property's Run.
 func Prepare(c *core.Ctx) {
-	m := &Model{typeCanon: map[*types.TypeName]string{}, fieldCanon: map[*types.Var]string{}, fn: map[string]*ssa.Function{}, fnCanon: map[*ssa.Function]string{}, methCanon: map[string]string{}}
+	m := &Model{typeCanon: map[*types.TypeName]string{}, fieldCanon: map[*types.Var]string{}, fn: map[string]*ssa.Function{}, fnCanon: map[*ssa.Function]string{}, methCanon: map[string]string{}, globCanon: map[types.Object]string{}}
 	M = m
 	facts.CanonField = func(f *types.Var) string { return m.fieldCanon[f] }
+	load.RoleFunc, load.RoleType = nil, nil // the model itself resolves by actual names
+	facts.CanonMethod = methName
+	facts.CanonFuncString = m.funcString
 	m.build(c)
+	load.RoleFunc = func(key string) *ssa.Function { return m.fn[key] }
+	load.RoleType = func(pkgPath, name string) *types.Named {
+		for tn, cn := range m.typeCanon {
+			if cn == name && tn.Pkg() != nil && tn.Pkg().Path() == pkgPath {
+				n, _ := tn.Type().(*types.Named)
+				return n
+			}
+		}
+		return nil
+	}
+	if os.Getenv("OCIVET_MODEL") != "" {
+		var ks []string
+		for k, f := range m.fn {
+			ks = append(ks, "fn "+k+" = "+f.String())
+		}
+		for f, n := range m.fieldCanon {
+			ks = append(ks, "field "+f.Pkg().Name()+"."+f.Name()+" -> "+n)
+		}
+		for t, n := range m.typeCanon {
+			ks = append(ks, "type "+t.Pkg().Name()+"."+t.Name()+" -> "+n)
+		}
+		sort.Strings(ks)
+		fmt.Fprintln(os.Stderr, strings.Join(ks, "\n"))
+	}
+	c.Note("model: %d types, %d fields, %d functions resolved by role", len(m.typeCanon), len(m.fieldCanon), len(m.fn))
 	for _, n := range m.notes {
 		c.Note("model: %s", n)
 	}
@@ -79,6 +111,41 @@ func (m *Model) setFn(key string, fn *ssa.Function) {
 	m.fnCanon[fn] = name
 }
 
+// funcString renders a module function the way (*ssa.Function).String does,
+// with canonical receiver type and function names; "" if nothing differs.
+func (m *Model) funcString(f *ssa.Function) string {
+	if f.Parent() != nil || !load.InModule(f) || f.Object() == nil || f.Object().Pkg() == nil {
+		return ""
+	}
+	name := f.Name()
+	if n, ok := m.fnCanon[f]; ok {
+		name = n
+	} else if f.Signature.Recv() != nil {
+		name = methName(name)
+	}
+	pkg := f.Object().Pkg().Path()
+	recv := f.Signature.Recv()
+	if recv == nil {
+		if name == f.Name() {
+			return ""
+		}
+		return pkg + "." + name
+	}
+	rt, ptr := recv.Type(), ""
+	if p, ok := rt.(*types.Pointer); ok {
+		rt, ptr = p.Elem(), "*"
+	}
+	n, ok := rt.(*types.Named)
+	if !ok {
+		return ""
+	}
+	tn := canonTypeName(n)
+	if tn == n.Obj().Name() && name == f.Name() {
+		return ""
+	}
+	return "(" + ptr + pkg + "." + tn + ")." + name
+}
+
 // Fn returns the function playing the given canonical role ("ociclient.do").
 func (m *Model) Fn(key string) *ssa.Function { return m.fn[key] }
 
@@ -99,6 +166,34 @@ func fnName(fn *ssa.Function) string {
 	return f.Name()
 }
 
+// roleName: facts.FuncName with canonical receiver-type and function names —
+// for MATCHING a function against the role a rule expects (reports keep the
+// actual name).
+func roleName(fn *ssa.Function) string {
+	if fn == nil {
+		return ""
+	}
+	suffix := ""
+	f := fn
+	for f.Parent() != nil {
+		suffix = f.Name()[len(f.Parent().Name()):] + suffix
+		f = f.Parent()
+	}
+	if o := f.Origin(); o != nil {
+		f = o
+	}
+	s := ""
+	if M != nil {
+		s = M.funcString(f)
+	}
+	if s == "" {
+		s = f.String()
+	}
+	s = strings.ReplaceAll(s, "cuelabs.dev/go/oci/ociregistry/", "")
+	s = strings.ReplaceAll(s, "cuelabs.dev/go/oci/", "")
+	return s + suffix
+}
+
 // isFn: does call ci statically call the function playing role key?
 func isFn(ci ssa.CallInstruction, key string) bool {
 	sc := ci.Common().StaticCallee()
@@ -113,6 +208,16 @@ func isFn(ci ssa.CallInstruction, key string) bool {
 		return true
 	}
 	return sc.Origin() != nil && sc.Origin() == want
+}
+
+// globalName: canonical name of a package-level variable.
+func globalName(g *ssa.Global) string {
+	if M != nil && g.Object() != nil {
+		if n, ok := M.globCanon[g.Object()]; ok {
+			return n
+		}
+	}
+	return g.Name()
 }
 
 func canonTypeName(n *types.Named) string {
@@ -598,10 +703,10 @@ func (m *Model) buildAuth(c *core.Ctx) {
 		}
 	}
 	for canon, sig := range map[string]string{
-		"setAuthorization":              "(context.Context,*net/http.Request,ociauth.Scope,ociauth.Scope)(error)",
-		"acquireAccessToken":            "(context.Context,ociauth.Scope,ociauth.Scope)(string,error)",
-		"deleteExpiredTokens":           "(time.Time)()",
-		"init":                          "()(error)",
+		"setAuthorization":    "(context.Context,*net/http.Request,ociauth.Scope,ociauth.Scope)(error)",
+		"acquireAccessToken":  "(context.Context,ociauth.Scope,ociauth.Scope)(string,error)",
+		"deleteExpiredTokens": "(time.Time)()",
+		"init":                "()(error)",
 	} {
 		m.setFn("ociauth."+canon, byNameOr(findBySig(regM, sig, nil), regM, canon))
 	}
@@ -852,6 +957,21 @@ func (m *Model) buildServer(c *core.Ctx) {
 }
 
 func (m *Model) buildRoot(c *core.Ctx) {
+	// the code -> HTTP status table: the only package-level map[string]int
+	if tp := c.P.TypesPkg(""); tp != nil {
+		var tabs []types.Object
+		for _, name := range tp.Scope().Names() {
+			if v, ok := tp.Scope().Lookup(name).(*types.Var); ok && v.Type().String() == "map[string]int" {
+				tabs = append(tabs, v)
+			}
+		}
+		if len(tabs) == 1 {
+			m.globCanon[tabs[0]] = "errorStatuses"
+			if tabs[0].Name() != "errorStatuses" {
+				m.notes = append(m.notes, "variable "+tabs[0].Name()+" plays the role of errorStatuses")
+			}
+		}
+	}
 	fns := pkgFuncs(c, ".")
 	for _, f := range fns {
 		if f.Signature.Recv() != nil {
@@ -1012,6 +1132,9 @@ func (m *Model) buildUnify(c *core.Ctx) {
 		}
 		for i := 0; i < it.NumMethods(); i++ {
 			mm := it.Method(i)
+			if mm.Exported() {
+				continue
+			}
 			s := mm.Type().(*types.Signature)
 			switch {
 			case s.Params().Len() == 0 && s.Results().Len() == 1 && s.Results().At(0).Type().String() == "error":
